@@ -240,6 +240,17 @@ pub fn run(reg: &[Box<dyn TypeOps>], cfg: &Cfg, out: &mut dyn Write) {
                 }
             }
         }
+        // nested FlexVec (S106): an empty inner vector as the last item, then a push of an inner vector whose items do not all fit — an
+        // emplacer that has written before it fails — in rooms from tight to moderate; then the same once more after a pop
+        if let Shape::Flex(e, _) = &sh {
+            if let Shape::Flex(ee, _) = &**e {
+                let many = D::FlexIter((0..14).map(|_| gen_init(ee, &mut rng, 2).strip_def()).collect());
+                let one = D::FlexIter(vec![gen_init(ee, &mut rng, 2).strip_def()]);
+                for r in (4..64).step_by(3) {
+                    boundary.push((t.min_size() + r, vec![Op::FPush(D::FlexEmpty), Op::FPush(many.clone()), Op::FPush(one.clone()), Op::FPop, Op::FPush(D::FlexEmpty), Op::FPush(many.clone())]));
+                }
+            }
+        }
         // tight rooms (S98): an item that is a struct or an enum pushed twice into an empty vector, in a buffer of *every* length from the
         // minimum up to where two such items fit comfortably — whichever length leaves exactly "one slot and a little" for a push is among them
         if let Shape::Flex(e, _) = &sh {
